@@ -1396,6 +1396,15 @@ _vbi_cache_foreach_page		(vbi_cache *		ca,
 
 		subno += dir;
 
+		/* The walk may begin below the lowest or above the
+		   highest subpage of the first page. */
+		if (ps->n_subpages > 0) {
+			if (dir > 0 && subno < ps->subno_min)
+				subno = ps->subno_min;
+			else if (dir < 0 && subno > ps->subno_max)
+				subno = ps->subno_max;
+		}
+
 		while (0 == ps->n_subpages
 		       || subno < ps->subno_min
 		       || subno > ps->subno_max) {
